@@ -28,6 +28,17 @@ func c10Alphabet() []ev.E {
 	}
 }
 
+// c10Warmups: histories that leave every side table of the validator populated before Reset().
+func c10Warmups() [][]ev.E {
+	full := []ev.E{ev.EBD(), ev.EV(0), ev.ERecType("x"), ev.EStr("k"), ev.EEnd(), ev.ERecType("y"), ev.EEnd(),
+		ev.EList(), ev.EMarker("m"), ev.EMap(), ev.EStr("a"), ev.EPInt(1), ev.EPInt(2), ev.ERef("n"), ev.EEnd(), ev.ERec("x"), ev.ENull(), ev.EEnd(),
+		ev.EMarker("n"), ev.EStr("s"), ev.ERef("m"), ev.EABegin(events.ArrayTypeString), ev.EChunk(2, false), ev.EData([]byte("\xc3\xa9")), ev.EEdge(), ev.EPInt(1), ev.ENull(), ev.EPInt(2), ev.EEnd(),
+		ev.EEnd(), ev.EED()}
+	aborted := []ev.E{ev.EBD(), ev.EV(0), ev.ERecType("x"), ev.EStr("k"), ev.EEnd(), ev.EList(), ev.ERef("q"), ev.EMarker("m"), ev.EMap(), ev.EStr("a"), ev.ENull(),
+		ev.EMarker("z"), ev.EABegin(events.ArrayTypeString), ev.EChunk(3, true), ev.EData([]byte("a\xc3"))}
+	return [][]ev.E{full, aborted}
+}
+
 func init() {
 	register(&fx.Check{
 		ID:    "C10",
@@ -49,6 +60,13 @@ func init() {
 			// main search after the fixed header
 			s := &rsearch{prefix: []ev.E{ev.EBD(), ev.EV(0)}, alphabet: c10Alphabet(), depth: c.Pick(7, 9), split: 2, checkVerdict: true, mcfg: rulesmodel.Config{LaxMarkers: true}}
 			s.run(c)
+			// the same search from reused instances: after a complete document + Reset(), and after a document
+			// aborted inside a chunked map key + Reset()
+			for i, w := range c10Warmups() {
+				rs := &rsearch{warmup: w, tag: []string{"after-complete-doc-and-reset:", "after-aborted-doc-and-reset:"}[i], prefix: []ev.E{ev.EBD(), ev.EV(0)}, alphabet: c10Alphabet(),
+					depth: c.Pick(5, 7), split: 2, checkVerdict: true, mcfg: rulesmodel.Config{LaxMarkers: true}}
+				rs.run(c)
+			}
 		},
 		Replay: replayRules(true, false, rulesmodel.Config{LaxMarkers: true}),
 	})
